@@ -37,3 +37,4 @@
 ;; ghost pver Int
 ;; ghost cver Int
 ;; ghost vcver Int
+;; ghost lastCtxErrNil Bool
